@@ -832,6 +832,81 @@ pub fn replay_layouts(ctx: &Ctx, seed: u64, reps: usize, rep: &mut Report) {
             }
         }
     }
+    big_count_cases(ctx, &mut rng, port, rep);
+}
+
+/// Counts at and beyond the ends of the narrower integer types a parser might pass them through: 127 / 128 / 255 players (the count
+/// is one byte), 32 767 / 32 768 / 40 000 / 65 535 rules (two bytes) - replies of hundreds of kilobytes, sent as compressed
+/// and, where 255 fragments can hold them, as plain Source split replies. The specification's domain says 0-255 and 0-65 535.
+fn big_count_cases(ctx: &Ctx, rng: &mut StdRng, port: u16, rep: &mut Report) {
+    let engine = json!({"t":"source_none"});
+    let mut cases: Vec<(&str, usize, bool)> = Vec::new();
+    for n in [127usize, 128, 255] {
+        cases.push(("players", n, false));
+    }
+    for n in [32767usize, 32768, 40000, 65535] {
+        cases.push(("rules", n, true));
+    }
+    cases.push(("rules", 32768, false));
+    for (sec, n, compressed) in cases {
+        let (info, iexp, _) = build_section(rng, ctx, "info", &engine, 440, None, None);
+        let mut payload: Vec<u8> = vec![0xff, 0xff, 0xff, 0xff];
+        let mut want_players: Vec<Value> = Vec::new();
+        let mut want_rules = serde_json::Map::new();
+        if sec == "players" {
+            payload.extend([0x44, n as u8]);
+            for i in 0 .. n {
+                let name = format!("p{i}");
+                let score = (i as i32) * 1000 - 60000;
+                let dur = (i % 300) as f32;
+                payload.push(i as u8);
+                payload.extend(name.as_bytes());
+                payload.push(0);
+                payload.extend(score.to_le_bytes());
+                payload.extend(dur.to_le_bytes());
+                want_players.push(json!({"name": name, "score": score, "duration": dur, "deaths": null, "money": null}));
+            }
+        } else {
+            payload.push(0x45);
+            payload.extend((n as u16).to_le_bytes());
+            for i in 0 .. n {
+                let (k, v) = (format!("k{i:x}"), format!("{}", i % 7));
+                payload.extend(k.as_bytes());
+                payload.push(0);
+                payload.extend(v.as_bytes());
+                payload.push(0);
+                want_rules.insert(k, json!(v));
+            }
+        }
+        let small = if sec == "players" { vec![0xff, 0xff, 0xff, 0xff, 0x45, 0, 0] } else { vec![0xff, 0xff, 0xff, 0xff, 0x44, 0] };
+        let body_len = if compressed { bz2(&payload).len() } else { payload.len() };
+        let k = ((body_len + 1199) / 1200).max(2);
+        if k > 255 {
+            continue;
+        }
+        let frags = split(rng, ctx, &payload, k, false, true, compressed);
+        let batches = if sec == "players" { vec![vec![info], frags, vec![small]] } else { vec![vec![info], vec![small], frags] };
+        let script = ScriptJ::udp(batches);
+        let gather = GatheringSettings { players: GatherToggle::Enforce, rules: GatherToggle::Enforce, check_app_id: false };
+        let rec = run_call(&script, 200_000, move || valve::query(&addr(port), Engine::Source(None), Some(gather), timeouts(0)));
+        rep.evaluations += 1;
+        rep.distinct.insert(hash_of(&("bigcount", sec, n, compressed)));
+        let want = if sec == "players" {
+            json!({"info": iexp["info"], "players": want_players, "rules": {}})
+        } else {
+            json!({"info": iexp["info"], "players": [], "rules": Value::Object(want_rules)})
+        };
+        let case = json!({"section": sec, "count": n, "compressed": compressed, "fragments": k});
+        let viol: Option<String> = match &rec.outcome {
+            Outcome::Ok(v) => diff("", &want, v).map(|d| format!("valve {sec} with {n} entries: response differs at {}", diff_class(&d))),
+            Outcome::Err(e) => Some(format!("valve {sec} with {n} entries: well-formed reply rejected with {e}")),
+            Outcome::Panic { msg } => Some(format!("valve {sec} with {n} entries: panic {}", first_line(msg))),
+            Outcome::Hang => Some(format!("valve {sec} with {n} entries: does not return")),
+        };
+        if let Some(sig) = viol {
+            rep.violation("C02", &sig, json!({"kind":"valve-bigcount","case":case,"outcome":rec.outcome.to_json().to_string().chars().take(300).collect::<String>()}));
+        }
+    }
 }
 
 fn one_layout_case(ctx: &Ctx, rng: &mut StdRng, lsec: &str, shape: &Value, tr: &Value, port: u16, rep: &mut Report) {
